@@ -10,19 +10,23 @@ INTS = [0, 1, -1, -2, 2, 5]
 IFLOATS = [1.0, -1.0, -2.0, 2.0, 0.0]
 FLOATS = [0.5, 2.5, -0.0]
 BOOLS = [True, False]
-STRS = ["x", "abc", "1", ""]
+STRS = ["x", "abc", "1", "", "/da", "a/"]
 LISTS = [[1, 2], [1.0, 2], [], ["a"], [True], [1]]
+# lists holding mappings that hold lists / mappings, and nested lists (valid JSON values; once unhashable in the index)
+DEEP_LISTS = [[{"b": [1]}], [{"x": [1, 2]}, 3], [[1, [2]]], [{"b": {"c": [1]}}], [{"b": [1]}, {"b": [1.0]}]]
 SCALARS = INTS + IFLOATS + FLOATS + BOOLS + [None] + STRS
 TYPES = ["int", "float", "bool", "str", "list", "null"]
-PATTERNS = ["^a", "b", "x$", "1", "^$"]
+PATTERNS = ["^a", "b", "x$", "1", "^$", "/d", "a/$", "^/", "/"]
 
 
 def rand_value(rng, depth=1):
     r = rng.random()
     if r < 0.62:
         return rng.choice(SCALARS)
-    if r < 0.78:
+    if r < 0.75:
         return list(rng.choice(LISTS))
+    if r < 0.78:
+        return json.loads(json.dumps(rng.choice(DEEP_LISTS)))
     if depth > 0:
         return {"x": rand_value(rng, depth - 1), **({"y": rng.choice(SCALARS)} if rng.random() < 0.4 else {})}
     return rng.choice(SCALARS)
@@ -40,6 +44,11 @@ def rand_sp(rng):
         sp["spx"] = rng.choice(SCALARS) if rng.random() < 0.5 else {"y": rng.choice(SCALARS)}
     if rng.random() < 0.2:
         sp["docs"] = rng.choice(SCALARS) if rng.random() < 0.5 else {"n": rng.choice(SCALARS)}
+    # a state point key that is literally named like a namespace
+    if rng.random() < 0.12:
+        sp["doc"] = {"rev": rng.choice(SCALARS)} if rng.random() < 0.7 else rng.choice(SCALARS)
+        if rng.random() < 0.5:
+            sp["rev"] = rng.choice(SCALARS)
     return sp
 
 
@@ -69,8 +78,8 @@ def rand_corpus(rng, nmax=6, clashy=False):
 
 
 # ---------------------------------------------------------------- filters
-KEYS_SP = ["a", "b", "c.x", "sp.a", "sp.c.x", "c", "zz", "spx", "spx.y", "docs", "docs.n", "sp.spx.y"]
-KEYS_DOC = ["doc.d", "doc.b", "doc.d.x"]
+KEYS_SP = ["a", "b", "c.x", "sp.a", "sp.c.x", "c", "zz", "spx", "spx.y", "docs", "docs.n", "sp.spx.y", "sp.doc.rev", "sp.doc", "rev"]
+KEYS_DOC = ["doc.d", "doc.b", "doc.d.x", "doc.rev"]
 
 
 def rand_key(rng):
